@@ -9,63 +9,63 @@ HERE = os.path.dirname(os.path.dirname(os.path.abspath(__file__)))
 
 # id -> (level, technique, level text, level note (assumed / not decided), design ref)
 T = {
- "C01": ("other", "must-pass-through + typestate on the parse loop (AST/def-use), registry closure, string-transducer equivalence of the replace chains on the value path",
-         "Decides structural necessary conditions for every input: parsed parameters are attached to every decoded value on all paths and re-emitted; the component stack pushes/pops/attaches on every BEGIN/END path; unknown components keep their name; every types_map target is a registered codec with both directions; Parse∘Emit∘Parse = Parse for TEXT/identity codecs as transducers on the clean domain.",
-         "Value equality of typed values for every accepted text is not decided; TEXT stability excludes the K1 factor domain (backslash sequences, %2C-style text).", "5/C01"),
- "C02": ("other", "table agreement against an RFC 5545 oracle; finite abstract interpretation of Component.add/_encode/descriptor setters over value kinds",
-         "Every RFC 5545 property name maps to the codec family the RFC assigns (47/47); for each date/time-family name x value kind the VALUE/TZID parameters produced by the real constructor ASTs are the RFC ones; list wrapper forwards what element wrappers derive; repeated adds accumulate in order.",
-         "Oracle = RFC 5545 section 3.8 table embedded in sa/oracles; tzid_from_dt modelled by its contract; equality of decoded Python values is not decided.", "5/C02"),
- "C03": ("other", "writer/reader field-layout agreement from f-strings and slices; regex language inclusion (own NFA/DFA over re._parser ASTs); dispatch order analysis",
-         "Fixed-width codecs (DATE, DATE-TIME, TIME, UTC-OFFSET) write and read the same field tiling; DURATION_REGEX and WEEKDAY_RULE accept every RFC-grammar text; frequency/weekday tables equal the RFC enumerations; vDDDTypes.from_ical sends each RFC text shape to the right decoder; every codec's from_ical converts failures to ValueError.",
-         "Numeric inverse (decode(encode(v)) == v) for DURATION/UTC-OFFSET/INTEGER/FLOAT/BINARY is arithmetic over unbounded values and is not decided.", "5/C03"),
- "C04": ("other", "exception-escape analysis over the resolved call graph with handler subtraction and guard facts; handler-shape rules for the lenient VEVENT path",
-         "For the entry points from_ical/to_ical/walk every typed risk site in the cone is under a converting handler, discharged by a dominating guard, or justified; lenient handlers record and continue with the next line; provider lookups return None on the external's documented exceptions.",
-         "Exact on what it reports, incomplete by construction: receivers of unknown static type raise nothing; dateutil/pytz/zoneinfo internals are opaque (may raise anything) ; termination/CPU bound not decided.", "5/C04"),
- "C05": ("other", "who-may-construct, delimiter agreement between writer and reader, reader-special vs writer-neutralised character sets computed from the code",
-         "Contentline has one construction path and it refuses LF; writer and reader use the same delimiters; every character the reader treats specially in a position is neutralised by the writer for that position or rejected on read (set inclusion computed from literals, regex classes and replace chains).",
-         "The tuple-level inverse for arbitrary parameter maps (quote-aware scanners parts/q_split as loops) is not modelled; known findings K1 (%XX placeholders) and K2 (backslash in parameter values) are excluded by key.", "5/C05"),
- "C06": ("proof", "linear-arithmetic normalisation of the ASCII branch; exhaustive reachability of the fold loop's integer state with a ghost octet meter; regex automata facts for unfold",
-         "Every physical line produced by foldline is <= 75 octets for every input line (closed state space, not sampled), characters are never split, chunks tile the line, and uFOLD removes exactly the inserted separators.",
-         "Trusted: UTF-8 length of a code point is in {1,2,3,4}; defaults limit=75 and fold_sep CRLF+SP (checked: the only call site passes none); the interpreter of the loop body.", "5/C06"),
- "C07": ("proof", "str.replace chains extracted from the AST as subsequential transducers; equivalence / range-emptiness by bounded-delay product construction on an exact alphabet quotient",
-         "unescape∘escape = documented normalisation for every Unicode string at codec, property and list level, decided exactly on the domain avoiding the known factors; encoded form has no raw line break and no unescaped ; or ,.",
-         "Trusted: transducer semantics of str.replace (Appendix D), alphabet quotient argument. Known findings K1/K3 factors are excluded and printed; any other counterexample is a violation with a shortlex-minimal witness.", "5/C07"),
- "C08": ("other", "regex class inclusion, sanitiser must-pass-through, writer/reader arity agreement, transducer identity of the parameter value path",
-         "Every parameter value containing , ; : is emitted inside double quotes on every path; lists are quoted item-wise and split quote-aware; names are upper-cased on write and stored caselessly on read; the only rewriting between write and read is the placeholder pair, identity on the clean domain.",
-         "The scanner q_split itself (loop with a quote flag) is not modelled; K1/K2 factors excluded.", "5/C08"),
- "C09": ("other", "raw-case taint from Contentline.parts to comparisons; regex membership for line endings/folds; decode-path ordering",
-         "No raw-case name or value reaches a comparison with upper-case constants; CRLF/LF and all four fold forms are accepted and unfolded before splitting; every bytes entry decodes with utf-8-sig.",
-         "Equality of whole parse trees for all texts is not decided.", "5/C09"),
- "C10": ("other", "write-effect analysis of the to_ical cone, set-iteration-order leak analysis, sorted-flag propagation over call edges, shape of property_items",
-         "No store to observable non-fresh state in the serialisation cone; no set iteration order flows into output; the sorted flag reaches every nested sorter and selects sorted vs insertion order; BEGIN/END are balanced around properties and recursive subcomponents.",
-         "Observable state = attributes/items read by the to_ical cone or any __eq__; byte identity as such follows from these but floats/locale are not examined.", "5/C10"),
- "C11": ("other", "finite abstract interpretation over tz-kinds (naive/utc/zoned) of the four TZID producers; table agreement with RFC UTC-only names",
-         "UTC values get Z and no TZID, zoned values get their TZID and no Z, naive neither, in all four producers; wall-clock fields are formatted without conversion; RFC UTC-only properties are forced to UTC; TZID is forwarded to decoders exactly for the names that admit it.",
-         "Offsets near transitions, tz database content and provider agreement are runtime facts and are not decided; tzid_from_dt by contract.", "5/C11"),
- "C12": ("other", "global read/write effect analysis across parses; def-use of TZOFFSETFROM/TZOFFSETTO into onset and offset; sibling interface completeness",
-         "No process-global state written by one parse is read by another except the listed known finding; UTC onsets are computed as local onset minus a TZOFFSETFROM-derived value and the observance offset from TZOFFSETTO; both providers implement the full interface with the same cut-off.",
-         "Onset arithmetic at every instant and dateutil/pytz agreement are numerical and not decided; K4 (process-wide first-wins VTIMEZONE cache) is a known finding.", "5/C12"),
- "C14": ("other", "symbolic trip-count normalisation; abstract evaluation of Alarms.times / Alarm.triggers in linear normal form over symbolic start/end/trigger/duration",
-         "For every alarm shape the computed times are anchor + TRIGGER + k*DURATION with k = 0..REPEAT exactly when DURATION is present, the anchor is start/end per RELATED, absolute triggers ignore the component, and only the documented errors occur.",
-         "Date vs date-time arithmetic and DST normalisation values are not decided; small REPEAT values exercise the term shape, the trip count is symbolic.", "5/C14"),
- "C15": ("proof", "exhaustive abstract evaluation of the real ASTs of AlarmTime.acknowledged/trigger/is_active and Alarms._alarm_time over all order types x presence x trigger kinds, against the decision table of the statement",
-         "The functions observe instants only through comparisons/None tests (checked), so the finite quotient is exact: every case equals the decision table.",
-         "Trusted: the abstract interpreter and its semantic table for date/datetime comparison; contracts of tzp.localize_utc / normalize_pytz.", "5/C15"),
- "C16": ("model_checking", "presence/kind state machine extracted by abstract interpretation of the descriptor setter/deleter ASTs, explored to closure; getter decision tables",
-         "All states reachable through the start/end/DTSTART/DTEND|DUE/DURATION setters and deleters satisfy exclusivity; rejected arguments leave the state unchanged; start/end/duration getters equal the RFC decision table for every stored shape; Event and Todo agree.",
-         "CaselessDict semantics as decided in C17; states reached through add()/item assignment are inputs of the getter tables, not of the machine.", "5/C16"),
- "C17": ("other", "override completeness and key taint over the CaselessDict family, signature agreement with dict, operand normalisation in __eq__, shape of the canonical sort",
-         "Every key-taking mapping operation is overridden and the key that reaches storage is to_unicode(key).upper() on every path; no subclass bypasses it; __eq__ folds both operands; canonical ordering is priority-by-position then alphabetical.",
-         "Assumes CPython's OrderedDict stores through overridden __setitem__/update/copy in __init__/|/|=/fromkeys; equivalence to a reference dict over all histories follows only under that assumption. K6 (pop default) is a known finding.", "5/C17"),
- "C18": ("other", "exception-totality of the two queries, traversal-shape rules, parameter pass-through chain",
-         "get_used_tzids/get_missing_tzids cannot raise; the scan consumes every value of every property of every nested component; the id queried is the id stored in the generated VTIMEZONE; unknown ids are skipped.",
-         "Correctness of the generated VTIMEZONE content is C13 (not applicable).", "5/C18"),
- "C19": ("other", "table agreement with RFC 5545/7529 oracles, regex inclusion, delimiter agreement writer/reader",
-         "canonical_order contains every RFC part with RSCALE, FREQ first; each part's codec is the RFC type and writer and reader use the same table and delimiters; weekday/frequency/month grammars accept the RFC forms.",
-         "Equality of occurrence sequences under an expander is not decided.", "5/C19"),
- "C20": ("other", "traversal-shape rules, accessor literal/class agreement, guard analysis of every __eq__, equality-observes-serialised-fields",
-         "walk visits self before all subcomponents without filter or early exit and passes name/select through; accessors ask for the name of the class they return; no __eq__ can raise on a foreign operand; copyreg reducers exist for the stored dateutil types.",
-         "Reflexivity/symmetry/multiset matching for all trees and pickle fidelity are not decided; K8 (Component.__eq__ ignores name) is a known finding.", "5/C20"),
+ "C01": ("other", "abstract interpretation (own interpreter over the repository's ASTs) of the parse loop on all short sequences of abstract lines and of property_items/to_ical on abstract component trees, against a reference written from the statement; registry closure; str.replace chains recovered by interpreting the functions on a symbolic text and decided as transducer equivalences; position-marker interpretation of the fixed-width codecs; purity of time-zone construction on the parsed VTIMEZONE",
+         "For every line sequence up to the bound (all 13 line kinds, both result modes) the parse loop recovers nesting, names, parameters and values as the text denotes, falsy and repeated values included; serialisation re-emits every name, value and the value's own parameters; every types_map target is a registered codec; Parse∘Emit∘Parse = Parse for TEXT / identity codecs as transducers on the clean domain; DATE/DATE-TIME/TIME writer layout = reader slices = RFC shape.",
+         "Bounded: line sequences of length <= 3 (4 thorough) plus curated deeper ones; tree shapes <= 5 nodes. Value equality of typed values for every accepted text is not decided; TEXT stability excludes the K1/K10 factor domains (printed as known findings).", "15-16/C01"),
+ "C02": ("other", "table agreement against an RFC 5545 oracle; finite abstract interpretation of Component.add/_encode/descriptor setters over value kinds (incl. re-assignment histories); parse-loop probe over all registered names; position-marker interpretation of the fixed-width codecs",
+         "Every RFC 5545 property name maps to the codec family the RFC assigns; for each date/time-family name x value kind the VALUE/TZID parameters produced by the real constructor/add/setter ASTs are the RFC ones, also after re-assignment and for lists; repeated adds accumulate in order; every name under which a TZID is written gets it back on parse.",
+         "Oracle = RFC 5545 section 3.8 table embedded in sa/oracles; tzid_from_dt modelled by its contract; equality of decoded Python values is not decided.", "16/C02"),
+ "C03": ("exploration", "interpretation of the DATE/DATE-TIME/TIME codecs on position-marker texts; bounded-domain interpretation of UTC-OFFSET and DURATION against an independent RFC reader; the combined decoder on one text of every RFC form; regex language inclusion (own NFA/DFA over re._parser ASTs); exception-escape analysis of every from_ical",
+         "Writer layout = reader slices = RFC text shape for the fixed-width codecs however they are written; UTC-OFFSET (all hours x boundary minutes/seconds x sign) and DURATION (every unit-presence pattern x boundary magnitudes x sign) encode to RFC grammar, denote the value and decode back; every RFC form is classified as the right type incl. lists/periods with a time zone; codec objects render the value they hold now; every codec's from_ical converts failures to ValueError.",
+         "UTC-OFFSET/DURATION are decided on a bounded value domain, not for all magnitudes; INTEGER/FLOAT/BINARY inverses are not decided.", "15.3/C03"),
+ "C04": ("other", "exception-escape analysis over the resolved call graph with handler subtraction, guard facts and caller-side guard binding; abstract interpretation of the parse loop on sequences with unsplittable lines and undecodable values",
+         "For the entry points from_ical/to_ical/walk every typed risk site in the cone is under a converting handler, discharged by a dominating guard, or justified; inside a lenient component a bad line/value is recorded and dropped with everything else kept, elsewhere it is a ValueError; provider lookups return None on the external's documented exceptions.",
+         "Exact on what it reports, incomplete by construction: receivers of unknown static type raise nothing; dateutil/pytz/zoneinfo internals are opaque; termination/CPU bound not decided.", "16/C04"),
+ "C05": ("exploration", "bounded exhaustive abstract execution (own interpreter, never the repository) of Contentline.from_parts/parts, Parameters.to_ical/from_ical and the line-list serialiser on every string up to a length bound over the character-class quotient computed from the source; who-may-construct rule; regex class inclusions",
+         "Name, parameters and TEXT value read back equal the ones joined for every explored input; values, list items and parameter values cannot create or rename properties, parameters or content lines; raw LF cannot enter a content line; what is serialised does not depend on history; control and structural characters are rejected in unquoted parameter values; the fold language is removed exactly.",
+         "Bounded (strings of length <= 2, 3 thorough, per position, plus the reader's multi-character patterns). Known findings K1 (%XX placeholders) and K2 (backslash in parameter values) are reported by key with the minimal offending character set.", "15.2/C05"),
+ "C06": ("proof", "linear-arithmetic normalisation of the ASCII branch; exhaustive reachability of the fold loop's integer state with a ghost octet meter; general abstract execution of foldline on lines A^n.R; regex automata facts for unfold; bounded abstract execution of line/line-list serialisation and re-reading",
+         "Every physical line produced by foldline is <= 75 octets for every input line (closed state space, not sampled), characters are never split, chunks tile the line, and uFOLD removes exactly the inserted separators; every line of a serialised component is such a line, also when it was read from otherwise folded input.",
+         "Trusted: UTF-8 length of a code point is in {1,2,3,4}; defaults limit=75 and fold_sep CRLF+SP (the only call site passes none). If foldline is rewritten beyond both symbolic arguments the bound is decided by the bounded PHYS-MODEL only (noted in the evidence).", "16/C06"),
+ "C07": ("proof", "str.replace chains recovered by interpreting each function on a symbolic text, decided as subsequential transducers (equivalence / range-emptiness by bounded-delay product on an exact alphabet quotient); bounded abstract execution of the whole wire path (join, serialise, split, parts, decode) and of the list codec",
+         "unescape∘escape = documented normalisation for every Unicode string at codec, property and list level, decided exactly on the domain avoiding the known factors; encoded form has no raw line break and no unescaped ; or ,; raw str/bytes values and list items survive the wire path on every explored input.",
+         "Trusted: transducer semantics of str.replace (Appendix D), alphabet quotient argument. Known findings K1/K3/K9 factors are excluded and printed; the wire/list model is bounded.", "16/C07"),
+ "C08": ("exploration", "bounded exhaustive abstract execution of Parameters.to_ical/from_ical (alone and inside a content line) over the character-class quotient, the emitted text read by an independent RFC 5545 tokenizer; ownership of parameters by every codec constructor; regex class inclusion; transducer identity of the placeholder rewriting",
+         "Every quote-free, control-free value (and lists of them) round-trips with the same arity and order, names in any case; every value containing , ; : is inside double quotes so that a conforming reader splits it the same way; sorted vs insertion order; output depends on the current content only, not on history or on objects shared with a cache or another value.",
+         "Bounded (values of length <= 2, 3 thorough; lists of short values). K1/K2 factors are decided by the transducer rule and excluded here.", "15.2/C08"),
+ "C09": ("exploration", "abstract interpretation of the parse loop on mixed-case line sequences and on every registered property name in both cases; raw-case taint of caller-supplied names; regex language facts; bounded abstract execution of the line reader under every insignificant rewriting",
+         "BEGIN/END, component, property and parameter names in any case parse like their upper-case spelling; the logical lines are the same under LF/CRLF, BOM, str/bytes, every fold position with space or tab, blank lines.",
+         "Bounded (one four-line text for the fold positions; line sequences <= 3). Equality of whole parse trees for all texts is not decided.", "16/C09"),
+ "C10": ("other", "write-effect analysis of the to_ical cone, set-iteration-order leak analysis, sorted-flag binding over call edges; abstract interpretation of property_items/content_lines/to_ical on abstract trees and of the canonical ordering",
+         "No store to observable non-fresh state in the serialisation cone; no set iteration order flows into output; the sorted flag reaches every nested sorter; items are emitted in canonical (sorted) or insertion order with values and subcomponents in insertion order, BEGIN/END balanced and properly nested.",
+         "Observable state = attributes/items read by the to_ical cone or any __eq__; byte identity as such follows from these but floats/locale are not examined; trees <= 5 nodes.", "16/C10"),
+ "C11": ("other", "finite abstract interpretation over tz-kinds (naive/utc/zoned, UTC-alias zone) of the TZID producers under both provider models; interpretation of TZP.localize_utc/localize on provider-level contracts; parse-loop probe for TZID forwarding; ownership of parameters",
+         "UTC values get Z and no TZID, zoned values (incl. aliases of UTC) their own TZID and no Z, naive neither, in all producers; wall-clock fields are formatted without conversion; RFC UTC-only properties are forced to UTC; the TZID is handed to the decoder of every value of a line exactly for the names that admit it.",
+         "Offsets near transitions, tz database content and provider agreement are runtime facts and are not decided; tzid_from_dt by contract.", "15.4/C11"),
+ "C12": ("other", "global read/write effect analysis across parses; def-use of TZOFFSETFROM/TZOFFSETTO into onset and offset; sibling interface completeness; interpretation of the VTIMEZONE caching path on a stub provider",
+         "No process-global state written by one parse is read by another except the listed known finding; UTC onsets are computed as local onset minus a TZOFFSETFROM-derived value; both providers implement the full interface; a custom TZID is served by the zone built from the calendar's own VTIMEZONE.",
+         "Onset arithmetic at every instant and the numeric transition lists of the dateutil/pytz conversions are not decided (seeded change C12-c is a documented miss); K4 (process-wide first-wins VTIMEZONE cache) is a known finding.", "16/C12"),
+ "C14": ("other", "abstract evaluation of Alarms.times / Alarm.triggers and the manual Alarms() paths in linear normal form over symbolic start/end/trigger/duration, under the zoneinfo and the pytz provider model; symbolic trip count where the loop has that shape",
+         "For every alarm shape (incl. zero-length triggers, alarms added after the component) the computed times are anchor + TRIGGER + k*DURATION with k = 0..REPEAT exactly when DURATION is present, the anchor is start/end per RELATED, absolute triggers ignore the component, only the documented errors occur, and pytz wall clocks are not re-read after arithmetic.",
+         "REPEAT in 0..2 (3 thorough) concretely, symbolically when the repeat loop is a range loop; date vs date-time arithmetic values are not decided.", "16/C14"),
+ "C15": ("proof", "exhaustive abstract evaluation of the real ASTs of AlarmTime.acknowledged/trigger/is_active and Alarms._alarm_time over all order types x presence x trigger kinds (both provider models), against the decision table of the statement; history independence of the Alarms object",
+         "The functions observe instants only through comparisons/None tests (checked), so the finite quotient is exact: every case equals the decision table; active is exactly the sub-list of times; reading times/active never freezes later settings.",
+         "Trusted: the abstract interpreter and its semantic table for date/datetime comparison; contracts of tzp.localize_utc / normalize_pytz.", "16/C15"),
+ "C16": ("model_checking", "presence/kind state machine extracted by abstract interpretation of the descriptor setter/deleter ASTs, explored to closure over all stored states; getter decision tables (also under the pytz provider model)",
+         "All states reachable through the start/end/DTSTART/DTEND|DUE/DURATION setters and deleters satisfy exclusivity; rejected arguments leave the state unchanged; start/end/duration getters equal the RFC decision table for every stored shape; Event and Todo agree; end is the instant start + DURATION.",
+         "CaselessDict semantics as decided in C17; states reached through add()/item assignment are inputs of the getter tables and of the machine's start states.", "16/C16"),
+ "C17": ("exploration", "model-based exploration by interpretation: the CaselessDict family's own methods on a model of the builtin OrderedDict, on every sequence of mapping operations up to a bound, compared after every step with a dictionary keyed by the upper-cased name; canonical ordering of every class of the family",
+         "Results, exceptions, stored keys (upper-case str only), first-insertion order and equality agree with the reference dictionary for every explored sequence (keys in both cases, str and bytes; construction from mappings/pairs/keywords; get/set/delete/in/get/pop/setdefault/update/copy/|/|=/==/!=); priority names first in declared order, the rest alphabetically.",
+         "Sequences of <= 2 operations (3 thorough) from four initial maps; which inherited OrderedDict operations dispatch through overridable methods was established against CPython 3.12 and is trusted. K6 (pop default) is a known finding.", "17.3b/C17"),
+ "C18": ("exploration", "exception-escape analysis of the two queries; interpretation of get_used_tzids/get_missing_tzids/add_missing_timezones/Timezone.from_tzid and property_items on abstract calendars",
+         "The queries cannot raise; used = TZID parameters of every value of every nested component; missing = used minus VTIMEZONEs present; add_missing_timezones adds exactly one VTIMEZONE per id the provider resolves (incl. unclean and alias ids) labelled with that id, leaves unknown ids missing, and is idempotent.",
+         "16 abstract calendars; Timezone.from_tzinfo by contract (stores the id it is given: checked separately); correctness of generated VTIMEZONE content is C13 (not applicable).", "16/C18"),
+ "C19": ("exploration", "interpretation of vRecur.to_ical/from_ical/parse_type and the part codecs on rules of every RFC 5545/7529 part, alone and combined, three construction modes, read back by an independent RECUR reader; table agreement with the RFC part table; regex inclusion",
+         "The encoded text is RECUR syntax with FREQ (after an optional RSCALE) first and exactly the supplied parts and values; decoding yields every part in text order with the same typed values; re-encoding is stable; decoded/encoded results do not depend on history; canonical_order and the type table agree with the RFC.",
+         "About 150 rules; equality of occurrence sequences under an expander is not decided.", "17.3b/C19"),
+ "C20": ("exploration", "interpretation of walk/_walk, the kind accessors and Component.__eq__ on abstract component trees against pre-order and the equivalence laws; guard analysis of every __eq__ (following helper methods); registry data",
+         "walk returns every matching component exactly once in pre-order for names in any case and any predicate; accessors return the components of their kind; equality is reflexive, symmetric, insensitive to subcomponent and insertion order, False for 9 kinds of foreign operand, != its negation, and distinguishes value, list order, extra property, dropped/extra subcomponent and the multiset of subcomponents; no __eq__ can raise on a foreign operand.",
+         "Trees <= 5 nodes plus repeated-kind and VTIMEZONE trees; pickle fidelity not decided; K8 (component kind not compared) is a known finding.", "16/C20"),
 }
 
 NA = {
@@ -117,10 +117,14 @@ def main():
             "serves_properties": sorted(ARMED),
             "kind_free_text": "repository-specific static analysis in pure "
             "stdlib Python: AST source model with constant folding and "
-            "registry/descriptor extraction, symbolic local expansion, "
-            "call graph, exception/write effects, str.replace transducers, "
-            "regex automata, finite loop exploration, finite-domain abstract "
-            "interpreter; decides from /repo's current source on every run",
+            "registry/descriptor extraction, AST canonicalisation, symbolic "
+            "local expansion, call graph, exception/write effects, str.replace "
+            "transducers, regex automata, finite loop exploration, and an "
+            "abstract interpreter of the repository's ASTs (never importing or "
+            "running the repository) on which the parse loop, tree functions, "
+            "mappings, codecs and the text layer are explored on abstract / "
+            "class-representative inputs; decides from /repo's current source "
+            "on every run",
         }],
         "checks": checks,
         "not_applicable": na,
